@@ -170,6 +170,35 @@ FIELD_KINDS = [
 FEATURE_BITS = {"RING_INDIRECT_DESC": 28, "RING_EVENT_IDX": 29, "ACCESS_PLATFORM": 33}
 
 
+def field_kind(ty, texts, depth=0):
+    """kind of a struct field from its type; a private single-field wrapper type (newtype or one-field
+    struct) defined next to the driver is looked through"""
+    for pat, k in FIELD_KINDS:
+        if re.match(pat, ty):
+            return k
+    m = re.match(r"^(\w+)\b", ty)
+    if m and depth < 3:
+        name = m.group(1)
+        for t in texts:
+            tm = re.search(r"\bstruct\s+" + re.escape(name) + r"\b[^;{(]*\(", t)
+            if tm:
+                pclose = match_close(t, tm.end() - 1)
+                parts = [x for x in split_top(t[tm.end():pclose], angles=True) if x.strip()]
+                if len(parts) == 1:
+                    inner = re.sub(r"^\s*pub(?:\s*\([^)]*\))?\s+", "", parts[0].strip())
+                    return field_kind(inner, texts, depth + 1)
+            bm = re.search(r"\bstruct\s+" + re.escape(name) + r"\b[^;{(]*\{", t)
+            if bm:
+                close = match_close(t, bm.end() - 1)
+                parts = [re.sub(r"#\[[^\]]*\]", "", x).strip() for x in split_top(t[bm.end():close], angles=True)]
+                parts = [x for x in parts if x]
+                if len(parts) == 1:
+                    fm2 = re.match(r"(?:pub(?:\s*\([^)]*\))?\s+)?\w+\s*:\s*(.+)$", parts[0], flags=re.S)
+                    if fm2:
+                        return field_kind(fm2.group(1).strip(), texts, depth + 1)
+    return "plain"
+
+
 def const_value(name, texts):
     if re.fullmatch(r"\d+", name):
         return int(name)
@@ -184,7 +213,8 @@ def classify_flag(expr, body):
     expr = expr.strip()
     if expr in ("true", "false"):
         return f".const {expr}"
-    m = re.fullmatch(r"\w+\s*\.\s*contains\s*\(\s*\w+\s*::\s*(\w+)\s*\)", expr)
+    # `contains` and `intersects` coincide for a single flag
+    m = re.fullmatch(r"\w+\s*\.\s*(?:contains|intersects)\s*\(\s*\w+\s*::\s*(\w+)\s*\)", expr)
     if m:
         if m.group(1) not in FEATURE_BITS:
             raise ExtractError(f"queue flag taken from unexpected feature {m.group(1)}")
@@ -347,6 +377,9 @@ def extract_driver(repo, short, path, struct, extra):
     raw = open(os.path.join(repo, path)).read()
     s = strip_comments_and_strings(raw)
     consts = [s] + [strip_comments_and_strings(open(os.path.join(repo, e)).read()) for e in extra]
+    # every source file in the driver's directory (wrapper types of its fields may live in a sibling file)
+    ddir = os.path.dirname(os.path.join(repo, path))
+    neighbours = [s] + [strip_comments_and_strings(open(os.path.join(ddir, f)).read()) for f in sorted(os.listdir(ddir)) if f.endswith(".rs") and os.path.join(ddir, f) != os.path.join(repo, path)]
     m = re.search(r"\bpub\s+struct\s+" + struct + r"\b[^{;]*\{", s)
     if not m:
         raise ExtractError(f"{path}: struct {struct} not found")
@@ -360,11 +393,7 @@ def extract_driver(repo, short, path, struct, extra):
         if not fm:
             raise ExtractError(f"{path}: cannot parse field `{part[:40]}`")
         ty = fm.group(2).strip()
-        kind = "plain"
-        for pat, k in FIELD_KINDS:
-            if re.match(pat, ty):
-                kind = k
-                break
+        kind = field_kind(ty, neighbours)
         fields.append((fm.group(1), kind))
     if not fields:
         raise ExtractError(f"{path}: struct {struct} has no fields")
@@ -382,10 +411,18 @@ def extract_driver(repo, short, path, struct, extra):
         fclose = match_close(dbody, fm.end() - 1)
         fb = dbody[fm.end():fclose]
         for st, _ in statements(fb):
+            st = st.strip()
             um = re.fullmatch(r"self\s*\.\s*transport\s*\.\s*queue_unset\s*\(\s*(\w+)\s*\)\s*;", st)
-            if not um:
-                raise ExtractError(f"{path}: unexpected statement in Drop: `{st[:60]}`")
-            unset.append(const_value(um.group(1), consts))
+            if um:
+                unset.append(const_value(um.group(1), consts))
+                continue
+            # `for q in [A, B, C] { self.transport.queue_unset(q); }` is the same sequence, in array order
+            lm = re.fullmatch(r"for\s+(\w+)\s+in\s+\[([^\]]*)\]\s*\{\s*self\s*\.\s*transport\s*\.\s*queue_unset\s*\(\s*(\w+)\s*\)\s*;?\s*\}", st, flags=re.S)
+            if lm and lm.group(1) == lm.group(3):
+                for name in [x.strip() for x in lm.group(2).split(",") if x.strip()]:
+                    unset.append(const_value(name, consts))
+                continue
+            raise ExtractError(f"{path}: unexpected statement in Drop: `{st[:60]}`")
     # constructor
     im = re.search(r"\bimpl\s*<[^{]*?>\s*" + struct + r"\s*<[^{]*\{", s, flags=re.S)
     if not im:
